@@ -211,3 +211,14 @@ def workload(ctx, lentil):
             ctx.expect_raises('tilt-refused', (NotImplementedError,),
                               lambda: lentil.propagate_fft(wt, du, **kw), 'tilt|refusal',
                               'a wavefront carrying tilt metadata was not refused by propagate_fft', dict(desc, how=how))
+            # several fields of which only one (first, middle or last) carries tilt metadata
+            segs, _ = gen.partition(rng, A, 3)
+            if len(segs) >= 2:
+                wseg = lentil.Wavefront(wl) * lentil.Pupil(amplitude=amp, opd=opd, mask=segs.astype(float), pixelscale=dx,
+                                                          focal_length=z)
+                which = int(rng.integers(0, len(wseg.data)))
+                wseg.data[which].tilt = [lentil.Tilt(x=1e-6, y=2e-6)]
+                ctx.expect_raises('tilt-refused', (NotImplementedError,),
+                                  lambda: lentil.propagate_fft(wseg, du, **kw), 'tilt|refusal|one-field-of-many',
+                                  'a wavefront in which only one of several fields carries tilt metadata was not refused',
+                                  dict(desc, tilted_field=which, fields=len(wseg.data)))
